@@ -136,10 +136,12 @@ class _Keys:
   def __init__(self):
     self.k = {}
     self.t = {}
+    self.alive = []   # keeps every keyed object alive: ids are not recycled
 
   def text(self, l):
     i = id(l)
     if i not in self.t:
+      self.alive.append(l)
       self.t[i] = safe_str(l)
     return self.t[i]
 
@@ -150,6 +152,7 @@ class _Keys:
       return "str:" + safe_str(x)
     i = id(x)
     if i not in self.k:
+      self.alive.append(x)
       n = observe.line_name(x)
       v = "~" if observe.is_virtual(x) else ""
       rt = observe.rt_of(x)
